@@ -345,7 +345,7 @@ class IrReps:
                         self._q, np.dot(np.linalg.inv(r), p2 - t) - p2
                     )
                     if self._is_little_cogroup:
-                        phase_factor = np.dot(t, self._q)
+                        phase_factor += np.dot(t, self._q)
                     matrix[j, i] = np.exp(2j * np.pi * phase_factor)
         return matrix
 
